@@ -194,6 +194,17 @@ func runC12(t *testing.T, rc *core.RunCtx) {
 	cancel()
 	env := &argEnv{tp: tp, names: all, ctxLive: context.Background(), ctxDead: dead,
 		tracerId: "none", bindingId: "none", noNilCtx: true, noEvents: true}
+	// half of the runs detach a binding that exists (the harness binds its
+	// handlers three times, under known ids)
+	if tp.Draw(2) == 0 {
+		env.bindingId = "hb0"
+	}
+	// a final handler panics every faultEvery-th call (0 = never): the
+	// machine repairs its state while the other tasks keep reading it
+	faultEvery := 0
+	if tp.Draw(3) == 0 {
+		faultEvery = tp.Range(2, 9)
+	}
 	rt := reflect.TypeOf(&am.Machine{})
 	if target == "netmach" {
 		rt = reflect.TypeOf(&arpc.NetworkMachine{})
@@ -220,7 +231,7 @@ func runC12(t *testing.T, rc *core.RunCtx) {
 			name := methods[tp.Draw(len(methods))]
 			// bias towards mutations so that transitions actually run
 			if target == "machine" && tp.Draw(3) == 0 {
-				name = []string{"Add", "Remove", "Set", "Add1", "Toggle1", "AddErr"}[tp.Draw(6)]
+				name = []string{"Add", "Remove", "Set", "Add1", "Toggle1", "AddErr", "Add1", "HandlersDetach", "HandlersBindMaps"}[tp.Draw(9)]
 			}
 			args, desc, ok := env.buildArgs(rt, name)
 			if !ok {
@@ -241,7 +252,7 @@ func runC12(t *testing.T, rc *core.RunCtx) {
 			feed = append(feed, cur)
 		}
 	}
-	rc.Desc = fmt.Sprintf("target=%s park=%v states=%v programs=%v feed=%d", target, park, names, descs, len(feed))
+	rc.Desc = fmt.Sprintf("target=%s park=%v detach=%s faultEvery=%d states=%v programs=%v feed=%d", target, park, env.bindingId, faultEvery, names, descs, len(feed))
 	rc.Shape = rc.Desc
 	rc.NonTrivial = true
 	before := raceLogSize()
@@ -260,10 +271,12 @@ func runC12(t *testing.T, rc *core.RunCtx) {
 		}
 		var recv reflect.Value
 		var nmInt *arpc.NetMachInternal
+		finals := 0
 		if target == "machine" {
 			neg := map[string]am.HandlerNegotiation{}
 			fin := map[string]am.HandlerFinal{}
 			for _, s1 := range all {
+				s1 := s1
 				neg[s1+am.SuffixEnter] = func(e *am.Event) bool {
 					if park {
 						s.Adopt("handler")
@@ -276,10 +289,18 @@ func runC12(t *testing.T, rc *core.RunCtx) {
 						s.Adopt("handler")
 						s.Yield("h.in", "")
 					}
+					finals++
+					// (not while the machine is handling a fault: that is C08's)
+					if faultEvery > 0 && finals%faultEvery == 0 && s1 != am.StateException && !m.Is1(am.StateException) {
+						s.Probe("final-handler-fault")
+						panic("injected")
+					}
 				}
 			}
-			if _, err := m.HandlersBindMaps(neg, fin); err != nil {
-				panic(err)
+			for _, id := range []string{"hb0", "hb1", "hb2"} {
+				if _, err := m.HandlersBindMaps(neg, fin, am.BindOpts{Id: id}); err != nil {
+					panic(err)
+				}
 			}
 			recv = reflect.ValueOf(m)
 		} else {
